@@ -24,7 +24,7 @@ OBLIGATIONS = ["NiftyVerif.C32." + t for t in (
     "metropolis_detailed_balance", "metropolis_invariant", "transitionProbability_eq",
     "exp_logaddexp", "logaddexp_weight_total", "merge_weight", "expit_keep", "progressive_sampling_step",
     "nuts_slot_invariant", "nuts_subtree_count", "leapfrog_volume_preserving", "flip_volume_preserving",
-    "progressive_sampling_multinomial", "merge_multinomial")]
+    "progressive_sampling_multinomial", "merge_multinomial", "chain_acceptance_is_mean")]
 RULE = ("leap case = (dimension 1..3, potential ½qᵀAq + Σb q⁴/4 + c·q or a non-polynomial one, diagonal inverse mass, step "
         "size, number of steps, start (q,p)); accrej case = the same plus a PRNG key; slots case = every leaf index n < 2^depth; "
         "non-trivial = non-zero force and momentum (leap), |u−p| outside the 1e-6 margin (accrej), odd n (slots)")
@@ -175,6 +175,8 @@ def oracle(case):
         return _oracle_nuts(case)
     if case.get("sub") == "merge":
         return _oracle_merge_unit(case)
+    if case.get("sub") == "book":
+        return _oracle_book(case)
     r, a = _leap(case)
     sig = dict(sub="leap", kind=case["kind"])
     if is_err(r):
@@ -428,6 +430,89 @@ def _oracle_merge_unit(c):
     return None
 
 
+
+# ---- chain bookkeeping of hmc_oo (update_chain / init_chain) --------------------------------------------------------------
+def real_book(c):
+    """a short real chain with save_intermediates=True: samples, acceptance, divergences, depths vs the stored trees"""
+    def go():
+        jax = jax_setup()
+        import jax.numpy as jnp
+        from nifty.re import hmc, hmc_oo
+        d, mk, _ = TARGETS[c["target"]]
+        U = mk(jnp)
+        with warnings.catch_warnings():
+            warnings.simplefilter("ignore")
+            if c["sampler"] == "hmc":
+                s = hmc_oo.HMCChain(potential_energy=U, inverse_mass_matrix=c["minv"], position_proto=jnp.zeros(d),
+                                    num_steps=c["num_steps"], step_size=c["step_size"], max_energy_difference=c["thr"])
+            else:
+                s = hmc_oo.NUTSChain(potential_energy=U, inverse_mass_matrix=c["minv"], position_proto=jnp.zeros(d),
+                                     step_size=c["step_size"], max_tree_depth=c["depth"], max_energy_difference=c["thr"])
+            x0 = jnp.full((d,), 0.3)
+            chain, (key_out, last) = s.generate_n_samples(jax.random.PRNGKey(c["key"]), x0, c["N"], save_intermediates=True)
+        en = lambda q, p: float(U(q) + 0.5 * c["minv"] * jnp.sum(p ** 2))
+        out = dict(samples=np.asarray(chain.samples), acceptance=float(chain.acceptance),
+                   divergences=np.asarray(chain.divergences).tolist(), last=np.asarray(last), x0=np.asarray(x0))
+        t = chain.trees
+        if c["sampler"] == "hmc":
+            out.update(accepted=np.asarray(t.accepted).tolist(), diverging=np.asarray(t.diverging).tolist(),
+                       acc_q=np.asarray(t.accepted_qp.position), rej_q=np.asarray(t.rejected_qp.position),
+                       e_acc=[en(q, p) for q, p in zip(t.accepted_qp.position, t.accepted_qp.momentum)],
+                       e_rej=[en(q, p) for q, p in zip(t.rejected_qp.position, t.rejected_qp.momentum)])
+        else:
+            out.update(depths=np.asarray(chain.depths).tolist(), tdepth=np.asarray(t.depth).tolist(),
+                       cand=np.asarray(t.proposal_candidate.position), diverging=np.asarray(t.diverging).tolist(),
+                       cum=np.asarray(t.cumulative_acceptance).tolist())
+        return out
+    from core.ctx import canon
+    k = ("book", canon(c))
+    if k not in _LEAP_CACHE:
+        _LEAP_CACHE[k] = safe(go)
+    return _LEAP_CACHE[k]
+
+
+def _book_values(c, r):
+    """per-sample acceptance statistic the chain is supposed to average"""
+    if c["sampler"] == "hmc":
+        return [1.0 if a else 0.0 for a in r["accepted"]]
+    return [(cu / (2 ** dp - 1)) if dp > 0 else 0.0 for cu, dp in zip(r["cum"], r["tdepth"])]
+
+
+def _oracle_book(c):
+    r = real_book(c)
+    sig = dict(sub="book", sampler=c["sampler"])
+    if is_err(r):
+        return (f"{c['sampler']} chain with save_intermediates raised {r['error']}", dict(sig, what="error", error=r["error"]))
+    N = c["N"]
+    vals = _book_values(c, r)
+    if not abs(r["acceptance"] - float(np.mean(vals))) <= 1e-12:
+        return (f"chain.acceptance {r['acceptance']!r} is not the mean {float(np.mean(vals))!r} of the per-sample acceptance",
+                dict(sig, what="acceptance"))
+    if r["divergences"] != r["diverging"]:
+        return ("chain.divergences differ from the stored per-sample flags", dict(sig, what="divergences"))
+    if not np.array_equal(r["last"], r["samples"][-1]):
+        return ("the returned last position is not the last sample", dict(sig, what="last"))
+    if c["sampler"] == "hmc":
+        if not np.array_equal(r["samples"], r["acc_q"]):
+            return ("chain.samples are not the accepted positions", dict(sig, what="samples"))
+        prev = r["x0"]
+        for i in range(N):
+            init = r["rej_q"][i] if r["accepted"][i] else r["acc_q"][i]
+            if not np.array_equal(init, prev):
+                return (f"sample {i} did not start from the previous sample", dict(sig, what="chaining"))
+            prev = r["samples"][i]
+            de = abs(r["e_acc"][i] - r["e_rej"][i])
+            if abs(de - c["thr"]) > 1e-9 * max(1.0, c["thr"]) and r["diverging"][i] != (de > c["thr"]):
+                return (f"sample {i}: diverging={r['diverging'][i]} but |ΔE|={de:.6g}, max_energy_difference={c['thr']}",
+                        dict(sig, what="diverging"))
+    else:
+        if [int(x) for x in r["depths"]] != [int(x) for x in r["tdepth"]]:
+            return ("chain.depths differ from the stored tree depths", dict(sig, what="depths"))
+        if not np.array_equal(r["samples"], r["cand"]):
+            return ("chain.samples are not the trees' proposal candidates", dict(sig, what="samples"))
+    return None
+
+
 # ---- NUTS integer bookkeeping -------------------------------------------------------------------------------
 _BITS = {}
 
@@ -573,7 +658,26 @@ def run(ctx):
         for m in r["merges"]:
             i = ask(dict(op="merge", u=rs(m["u"]), w_new=rs(m["w_new"]), w_cur=rs(m["w_cur"]), bias=m["bias"]))
             nmeta.append((c, "take_new", m["cand"] == m["c_new"], m["c_cur"] == m["c_new"], m["u"], i))
+    books = [dict(sub="book", sampler="hmc", target=rng.choice(["gauss1", "quartic1", "gauss2"]), N=12, num_steps=4,
+                  step_size=rng.choice([0.5, 0.9, 1.3]), minv=rng.choice([0.5, 1.0]), thr=rng.choice([0.05, 0.3, 1.0]),
+                  key=rng.randint(0, 2 ** 31 - 1)) for _ in range(ctx.n(1, 6))]
+    if not ctx.quick:
+        books += [dict(sub="book", sampler="nuts", target="gauss1", N=8, depth=3, step_size=0.7, minv=1.0, thr=0.5,
+                       key=rng.randint(0, 2 ** 31 - 1)) for _ in range(2)]
+    book_idx = []
+    for c in books:
+        ctx.case(c, True)
+        ctx.stat(f"book:{c['sampler']}")
+        res = _oracle_book(c)
+        if res is not None:
+            ctx.counterexample(c, *res)
+        r = real_book(c)
+        if not is_err(r):
+            book_idx.append((c, r, ask(dict(op="accrun", values=[rs(v) for v in _book_values(c, r)]))))
     outs = ctx.model(DRIVER, batch)
+    for c, r, i in book_idx:
+        if not abs(float(fr(outs[i]["acceptance"])) - r["acceptance"]) <= 1e-12:
+            ctx.disagree(c, dict(acceptance=r["acceptance"]), outs[i], "class T: chain acceptance vs the model's update_chain fold")
     # ---- leapfrog correspondence -------------------------------------------------------------------------------------
     for ci, c in enumerate(cases):
         if ci not in leap_idx:
